@@ -210,7 +210,16 @@ def _module_registrations(repo, mod):
     def seq(e, env):
         """list of element nodes / values, or None"""
         if isinstance(e, (ast.List, ast.Tuple)):
-            return list(e.elts)
+            out = []
+            for x in e.elts:
+                if isinstance(x, ast.Starred):
+                    inner = seq(x.value, env)  # [*names, "a", *["b"]]
+                    if inner is None:
+                        return None
+                    out.extend(inner)
+                else:
+                    out.append(x)
+            return out
         if isinstance(e, ast.BinOp) and isinstance(e.op, ast.Add):
             l, r = seq(e.left, env), seq(e.right, env)
             return None if l is None or r is None else l + r
